@@ -76,6 +76,13 @@ func i3WebLine(r *rng, names []string) string {
 	case 4, 5: // generic blocking rule on a path
 		return pick(r, i3Patterns) + i3Mods(r, []string{"important", "script", "image", "third-party", "match-case"}, 2)
 	case 6, 7: // specific ($domain) blocking rule on a path
+		if r.chance(1, 3) {
+			// the value is a PARENT of the names (often the public suffix they live under), the pattern mostly too short
+			// for a lookup shortcut; blocking rule or exception
+			return pick(r, []string{"", "", "@@"}) + pick(r, []string{"/ad", "/ad", "*", "/pa", ".js", "|http", pick(r, i3Patterns)}) + "$domain=" + genList(r, r1DotSuffixes(names), 2, r.chance(1, 6), "|") +
+				pick(r, []string{"", "", ",important", ",script"})
+		}
+
 		return pick(r, i3Patterns) + "$domain=" + genList(r, append(append([]string{}, names...), "example.*", "site.*"), 3, r.chance(1, 4), "|") +
 			pick(r, []string{"", "", ",important", ",script"})
 	case 8, 9, 10, 11: // document-level exception on a site (decides cosmetic options and the referrer flags)
@@ -213,6 +220,10 @@ func i3Names(r *rng) []string {
 	all := append([]string{}, poolDomains...)
 	shuffle(r, all)
 	names := all[:2+r.n(2)]
+	if r.chance(1, 3) {
+		// a host directly below a multi-label / private public suffix (its registrable domain is the host itself)
+		names = append(names, r1UnderSuffix(r, pick(r, r1SuffixDomains[:9])))
+	}
 
 	return names
 }
